@@ -1080,7 +1080,14 @@ func c10ProveEveryNode(c *Ctx) {
 	p := c.P
 	if f := p.Func("core/trie", "Trie", "Prove"); f != nil {
 		n := 0
-		for _, s := range sitesOf(f) {
+		var puts []Site
+		for _, g := range samePkgScope(f, 2) {
+			if g != f && !p.calledOnlyFrom(g, "Prove", 0) {
+				continue
+			}
+			puts = append(puts, sitesOf(g)...)
+		}
+		for _, s := range puts {
 			if s.Recv == nil || !(s.Callee != nil && s.Callee.Name() == "Put" || s.Method != nil && s.Method.Name() == "Put") || !strings.Contains(s.Recv.Type().String(), "ProofNodeSet") {
 				continue
 			}
